@@ -395,7 +395,7 @@ pub open spec fn control_name(n: Seq<char>) -> bool {
 //@ fragment-name leaf_defaults
 //@ fragment-inner
 //@ fragment-from <<<            Tag::Leaf(el, tail) => {\n                let mut el = el.clone();>>>
-//@ fragment-to <<<                let (ev, bb) = el.generate_events(context)?;\n                (events, bbox) = (ev, bb);\n                if let (Some(tail), false) = (tail, events.is_empty()) {\n                    events.push(OutputEvent::Text(tail.to_owned()));\n                }\n            }\n            Tag::Comment>>>
+//@ fragment-to <<<                let (ev, bb) = el.generate_events(context)?;\n                (events, bbox) = (ev, bb);\n                push_tail(&mut events, tail);\n            }\n            Tag::Comment>>>
 //@ fragment-head <<<fn leaf_defaults(mut el: SvgElement, context: &mut TransformerContext) -> SvgElement {>>>
 //@ fragment-tail <<<    el\n}>>>
 //@ strlit "var" "config" "defaults" "specs" "loop" "for" "if" "reuse"
